@@ -38,24 +38,26 @@ def C14():
                    "vertex-valued path against the edge-valued path), g++/ASan/UBSan"),
     "rule": ("each enumerated input is executed on the real routine once per configuration (line: std::less, std::greater, "
              "comparator on a key with distinct equivalent values, index mode through a comparator, by-value transform "
-             "range, std::list; rectangle: value mode and index mode, Index = size_t and unsigned) and compared: multiset "
+             "range, std::list; rectangle: value mode and index mode, <double,size_t> and <float,unsigned>) and compared: multiset "
              "of (dimension,birth,death) with birth != death, returned/last-call global minimum, infinity marker, outputs "
-             "are input elements / valid indices, exact index pairs when all values are distinct. distinct_nontrivial = "
-             "enumerated inputs whose true diagram has at least one finite interval of non-zero length"),
+             "are input elements / valid indices, exact index pairs when all values are distinct. states = enumerated (input, "
+             "build unit) pairs; distinct_nontrivial = those whose true diagram has at least one finite interval of "
+             "non-zero length"),
     "bounds": {
-        "quick": ("line: every weak order of lengths 0..7, {0,1,2,3}^8; rectangle (Index=size_t): every weak order of 2x2, "
-                  "2x3, 3x2, 2x4, 4x2, 3x3, {0,1}^(3x4,4x3,3x5,5x3,4x4), {0,1,2}^(2x5,5x2); rectangle (Index=unsigned): "
-                  "every weak order of 2x2, 2x3, 3x2, {0,1,2}^(3x3), {0,1}^(3x4,4x3,4x4)"),
-        "thorough": ("line: every weak order of lengths 0..9, {0..3}^10, {0,1,2}^12, {0,1}^16; rectangle (size_t): quick "
-                     "scope plus {0..3}^(3x4), {0,1,2}^(4x3,4x4), {0..3}^(2x5,5x2), {0,1}^(4x5,5x4,5x5); rectangle (unsigned): "
+        "quick": ("line: every weak order of lengths 0..7, {0,1,2,3}^8; rectangle (double, Index=size_t): every weak order of "
+                  "2x2, 2x3, 3x2, 2x4, 4x2, 3x3, {0,1,2}^(3x4,4x3,2x5,5x2), {0,1}^(3x5,5x3,4x4); rectangle (float, "
+                  "Index=unsigned): every weak order of 2x2, 2x3, 3x2, {0,1,2}^(3x3), {0,1}^(3x4,4x3,4x4)"),
+        "thorough": ("line: every weak order of lengths 0..9, {0..3}^10, {0,1,2}^12, {0,1}^16; rectangle (double, size_t): quick "
+                     "scope plus {0..3}^(3x4), {0,1,2}^(4x3,4x4), {0..3}^(2x5,5x2), {0,1}^(4x5,5x4,5x5); rectangle (float, unsigned): "
                      "every weak order up to 3x3, {0,1,2}^(3x4,4x3), {0,1}^(4x4,4x5,5x4)"),
     },
     "assumptions": [
         "documented preconditions only: n_rows >= 2 and n_cols >= 2, values comparable with operator< (finite small "
         "integers stored exactly in double/float; no NaN, no infinities in the input), C-order input, Index wide enough",
-        "zero-length pairs (birth value == death value, which the rectangle routine does emit when values repeat and which "
-        "its Python caller filters) are removed from the routine's output before the comparison and counted "
-        "(rect.zero_length_intervals_emitted.*); --strict-zero-length 1 turns them into a mismatch class instead",
+        "rectangle routine: pairs with birth value == death value (which it emits when values repeat, and which its Python "
+        "caller filters) are removed from its output before the comparison and counted (rect.zero_length_intervals_emitted.*); "
+        "--strict-zero-length 1 turns them into a mismatch class instead. Line routine: its documentation excludes pairs of "
+        "length 0, so any such pair is a mismatch",
         "with repeated values the index pairing is only compared after mapping indices to values (the tie order of the "
         "edge sort is not pinned down); with all values distinct the index pairs are compared exactly",
         "small scope: sequences up to length 16, grids up to 5x5, at most 9 distinct values; GUDHI_USE_TBB off "
@@ -64,7 +66,7 @@ def C14():
     "runs": {
         "quick": [
             {"unit": "c14_line", "args": ["--scope", "wo:0-7,pow:8:4"], "cores": 1},
-            {"unit": "c14_rect_sz", "args": ["--scope", RECT_SMALL_WO + ",wo:3x3"], "shards": 8, "cores": 1},
+            {"unit": "c14_rect_sz", "args": ["--scope", RECT_SMALL_WO + ",wo:3x3,pow:3x4:3,pow:4x3:3"], "shards": 8, "cores": 1},
             {"unit": "c14_rect_sz", "args": ["--scope", RECT_QUICK_POW], "cores": 1},
             {"unit": "c14_rect_u32", "args": ["--scope", RECT_U32_QUICK], "cores": 1},
         ],
